@@ -16,8 +16,8 @@ DECS = ["none", "raise", "ignore"]
 KINDS = ["cmd", "py"]
 
 
-def leaf(rc, form="bare", dec="none", kind="cmd", out=True, pipe=False):
-    return {"rc": rc, "form": form, "dec": dec, "kind": kind, "out": out, "pipe": pipe}
+def leaf(rc, form="bare", dec="none", kind="cmd", out=True, pipe=False, inner=False):
+    return {"rc": rc, "form": form, "dec": dec, "kind": kind, "out": out, "pipe": pipe, "inner": inner}
 
 
 def all_leaves():
@@ -32,17 +32,18 @@ def configs(tier, rng):
     for l in L:
         for r, c in flags:
             cfgs.append({"leaves": [l], "ops": [], "raise": r, "cmdraise": c})
+            cfgs.append({"leaves": [dict(l, inner=True)], "ops": [], "raise": r, "cmdraise": c})
     # 2 leaves: every pair (thorough) / seeded sample (quick)
     pairs = [(a, b, op, r, c) for a in L for b in L for op in ("and", "or") for r, c in flags]
     if tier == "quick":
         pairs = rng.sample(pairs, 2500)
     for a, b, op, r, c in pairs:
-        cfgs.append({"leaves": [a, b], "ops": [op], "raise": r, "cmdraise": c})
+        cfgs.append({"leaves": [dict(a, inner=rng.random() < 0.3), dict(b, inner=rng.random() < 0.3)], "ops": [op], "raise": r, "cmdraise": c})
     # 3 and 4 leaves, piped leaves: sampled
     n3 = 1200 if tier == "quick" else 40000
     for _ in range(n3):
         n = rng.choice([3, 3, 4])
-        leaves = [dict(rng.choice(L)) for _ in range(n)]
+        leaves = [dict(rng.choice(L), inner=rng.random() < 0.3) for _ in range(n)]
         if rng.random() < 0.25:
             i = rng.randrange(n)
             # at most one piped leaf (its stages share the alias `cp`), never decorated
@@ -69,7 +70,7 @@ def run(tier, seed, replay=None):
         payload = json.load(open(replay))["payload"]
         cfgs = [payload["trace"]["steps"][0]["cfg"]]
     else:
-        mc = tlc.model_check(SPEC, cfg_text=cfg_text, coverage=False, timeout=3000)
+        mc = tlc.model_check(SPEC, cfg_text=cfg_text, coverage=False, timeout=6000)
         selftest = {}
         for dev in ("Dev_ValueTruthiness", "Dev_CmdRaiseDependsOnParsePath"):
             r = tlc.model_check(SPEC, cfg_text=core.set_deviations(open(os.path.join(tlc.SPECS, "Chain_quick.cfg")).read(), [dev]), expect_ok=False, coverage=False, timeout=900)
@@ -81,8 +82,13 @@ def run(tier, seed, replay=None):
         # end-to-end subset: real xonsh processes with real children, binds the exit status
         e2e = [c for c in cfgs if all(not l.get("pipe") for l in c["leaves"]) and 2 <= len(c["leaves"]) <= 3]
         rng.shuffle(e2e)
-        for i, c in enumerate(e2e[: 32 if tier == "quick" else 400]):
-            scns.append({"cfg": c, "e2e": "command" if i % 2 == 0 else "script"})
+        for i, c in enumerate(e2e[: 48 if tier == "quick" else 600]):
+            scns.append({"cfg": c, "e2e": ["command", "script", "command-bigrc", "script-bigrc"][i % 4]})
+        # flags set by the compiled source itself (the environment holds the opposite at compile time)
+        late = list(cfgs)
+        rng.shuffle(late)
+        for c in late[: 400 if tier == "quick" else 8000]:
+            scns.append({"cfg": c, "late": True})
     traces = pool.run("chain", scns, hooks=False)
     bad_workers = [t for t in traces if "steps" not in t]
     if bad_workers:
